@@ -379,7 +379,7 @@ PENDING = "check not built yet in this round (planned: Lean 4 model + proof + co
 CLAIMED["C12"]["text"] += (" The cost line and `all` >= `any` are now also THEOREMS without interface hypotheses (Properties/C12Bridge.lean: "
     "embedding of solver solutions into the written dictionaries, evaluated cost of the read-back object = totalCost; "
     "C12_cost_line_thl/_exh/_spfs/_uspfs, C12_all_superset_any_*), the embedding and the evaluator being driven against the real "
-    "to_dict() / from_dict().cost(); the JSON text itself is the remaining hypothesis unless Properties/C12Json.lean is present.")
+    "to_dict() / from_dict().cost(); the JSON text layer is modelled too (Model/Json.lean: render = json.dumps, parse = json.loads, tied byte for byte) with the round trip proved for every value without repeated keys, all escapes included (C12_json_roundtrip), so the cost-line theorems hold on the written TEXT, one line per result (C12_cost_line_text_thl/_exh/_spfs/_uspfs).")
 for _p in ("C01", "C02", "C03", "C04", "C05", "C10"):
     CLAIMED[_p]["text"] += (" The correspondence also replays histories on ONE input object (costs changed in place between calls) and "
         "builds its inputs under varying presentations (ancestors unnamed / all alike, multi-character family names, float inf).")
